@@ -1,45 +1,15 @@
-//! C15 check (see /verif/DESIGN.md section 5 and /verif/mc/README-dev.md).
-use mclib::engine::{catch, finish, install_quiet_panic_hook, Ctx, Report, Tier};
-use serde_json::json;
-
-fn parse_args() -> (Tier, Option<String>, Vec<String>) {
-    let args: Vec<String> = std::env::args().collect();
-    let mut tier = match std::env::var("VERIF_TIER").as_deref() {
-        Ok("thorough") => Tier::Thorough,
-        _ => Tier::Quick,
-    };
-    let mut replay = None;
-    let mut rest = vec![];
-    let mut i = 1;
-    while i < args.len() {
-        match args[i].as_str() {
-            "--tier" => {
-                i += 1;
-                tier = if args.get(i).map(|s| s.as_str()) == Some("thorough") { Tier::Thorough } else { Tier::Quick };
-            }
-            "--replay" => {
-                i += 1;
-                replay = args.get(i).cloned();
-            }
-            o => rest.push(o.to_string()),
-        }
-        i += 1;
-    }
-    (tier, replay, rest)
-}
-
+mod labels;
 fn main() {
-    install_quiet_panic_hook();
-    let (tier, replay, _rest) = parse_args();
-    if let Some(path) = replay {
-        let _ = path;
-        eprintln!("replay not implemented yet");
-        std::process::exit(2);
-    }
-    let ctx = Ctx::new("C15", tier, tier.pick(120, 1200));
-    let mut rep = Report::new();
-    let _ = catch(|| ());
-    rep.sample(json!("skeleton"));
-    let code = finish(&ctx, rep, "skeleton", &[], json!({}));
-    std::process::exit(code);
+    let t = std::time::Instant::now();
+    let _ = labels::short_ident_collisions(3);
+    println!("short {:?}", t.elapsed());
+    let t = std::time::Instant::now();
+    let r = labels::brute_collisions(b" -.+/!?#abcde012", 1, 5, 3, 1_200_000, &|s| !labels::is_ascii_ident(s));
+    println!("brute {:?} {}", t.elapsed(), r.1);
+    let t = std::time::Instant::now();
+    let m = labels::Mitm::new();
+    println!("mitm new {:?}", t.elapsed());
+    let t = std::time::Instant::now();
+    let _ = m.preimage(0, "");
+    println!("mitm pre {:?}", t.elapsed());
 }
